@@ -22,6 +22,13 @@
 (*        symeq   pairs of construction recipes whose coefficients are     *)
 (*                expression trees (Variable / Sum / Product / numbers):   *)
 (*                == / != / hash / bool against tree-wise comparison;      *)
+(*        hist    histories on ONE object: multivectors a, b are built,    *)
+(*                used as operands of a sequence of operations (sums with  *)
+(*                each other and with bare scalars, products, unary ops,   *)
+(*                comparisons), their stored data is observed after every  *)
+(*                step, and afterwards ==, !=, hash, bool, get_pure_grade  *)
+(*                and inv() are asked of the SAME objects against twins    *)
+(*                that were built separately and never used;               *)
 (*  (b) checks the property on the model: the Clifford axioms on the       *)
 (*      M-layer (C18_Clifford) and "the bitmap algorithm (C18_Bitmap)      *)
 (*      refines the meaning" on every generated case;                      *)
@@ -66,6 +73,7 @@ DimsFor(kd) ==
       [] kd = "bilin" -> 2..Min2(MaxN, IF Tier = "quick" THEN 3 ELSE 4)
       [] kd = "eq"    -> 0..Min2(MaxN, 3)
       [] kd = "sym"   -> 2..Min2(MaxN, 3)
+      [] kd = "hist"  -> 2..Min2(MaxN, IF Tier = "quick" THEN 3 ELSE 4)
 MetricsFor(kd, nn) ==
     CASE kd = "pair"   -> Metrics(nn)
       [] kd = "unary"  -> IF nn <= 4 THEN Metrics(nn) ELSE { gg \in Metrics(nn) : Spread(gg) = 0 }
@@ -80,11 +88,14 @@ MetricsFor(kd, nn) ==
                                                ELSE Metrics(4))
                           ELSE Metrics5Few
       [] kd = "symeq"  -> IF nn = 2 THEN { << 1, -1 >> } ELSE { << 1, 1, 1 >>, << 0, 2, -1 >> }
+      [] kd = "hist"   -> IF nn = 2 THEN { << 1, -1 >> } \cup (IF Tier = "quick" THEN {} ELSE { << 0, 2 >> })
+                          ELSE IF nn = 3 THEN { << 2, 1, -1 >> } \cup (IF Tier = "quick" THEN {} ELSE { << 0, 1, -1 >> })
+                          ELSE { << 1, -1, 2, 0 >> }
       [] kd = "eq"     -> IF nn = 0 THEN { << >> } ELSE IF nn = 1 THEN { << -1 >> }
                           ELSE IF nn = 2 THEN { << 1, -1 >> } ELSE { << 1, 1, 1 >>, << 0, 2, -1 >> }
 Arity(kd) == CASE kd = "pair" -> 3 [] kd = "triple" -> 3 [] kd = "unary" -> 1
                [] kd = "bilin" -> 4 [] kd = "eq" -> 3 [] kd = "sym" -> 2
-               [] kd = "homog" -> 1 [] kd = "symeq" -> 2
+               [] kd = "homog" -> 1 [] kd = "symeq" -> 2 [] kd = "hist" -> 3
 
 (* pools of multi-term multivectors (term lists) *)
 Multi(nn) ==
@@ -254,6 +265,32 @@ SymEqPool(nn) ==
       TRc("b", << T(<< 1, 3 >>, X), T(<< 1, 2, 3 >>, SumT(<< X, Num(I(-1)) >>)) >>),
       TRc("b", << T(<< 3 >>, ProdT(<< X, SumT(<< Y, Num(I(1)) >>) >>)), T(<< 2, 3 >>, Num(F(-2, 3))) >>) })
 
+(* histories on one object (hist).  A history is a sequence of steps; every  *)
+(* step uses the two live objects a, b (and the bare scalar HistQ) as        *)
+(* operands:  add a+b, radd b+a, sub a-b, rsub b-a, sadd q+a, adds a+q,      *)
+(* ssub q-a, the six products a op b, x (commutator), neg/rev/invol/dual of  *)
+(* a, eq a==b, hash hash(a) (memoises), bool.  The tracked objects are never *)
+(* rebuilt between the steps.                                                *)
+HistQ == F(2, 3)
+HistAdditive == { "add", "radd", "sub", "rsub", "sadd", "ssub" }
+HistStepsQuick == HistAdditive \cup { "geo", "inn", "eq" }
+HistStepsAll == HistStepsQuick \cup { "adds", "out", "lc", "rc", "scl", "x", "neg", "rev", "invol",
+                                      "dual", "hash", "bool" }
+HistSeqs == IF Tier = "quick" THEN { << s >> : s \in HistStepsQuick }
+            ELSE { << s >> : s \in HistStepsAll }
+                 \cup { << s, t >> : s \in HistAdditive \cup { "hash", "geo" }, t \in HistAdditive }
+HistBlades(nn) == { << T(b, F(3, 5)) >> : b \in Blades(nn) }
+HistPoolA(nn) ==
+    { << >> } \cup HistBlades(nn)
+    \cup (IF nn = 2 \/ Tier = "thorough"
+          THEN { << T(b, I(-2)) >> : b \in { x \in Blades(nn) : Len(x) <= 1 } } \cup Multi(nn)
+          ELSE {})
+HistPoolB(nn) ==
+    IF Tier = "thorough" /\ nn = 2 THEN HistPoolA(nn)
+    ELSE { << T(<< >>, F(3, 1)) >>, << T(<< >>, I(1)), T(<< 1, 2 >>, I(2)) >> }
+         \cup (IF nn = 2 \/ Tier = "thorough" THEN { << >>, << T(<< 2 >>, F(1, 2)) >> } ELSE {})
+         \cup (IF nn >= 3 THEN { << T(<< 1, 3 >>, I(-1)), T(<< 2, 3 >>, F(1, 2)) >> } ELSE {})
+
 PairCoefs(nn) == IF nn <= 3 \/ (Tier = "thorough" /\ nn = 4)
                  THEN { << I(2), I(-3) >>, << F(3, 2), F(-2, 3) >> }
                  ELSE { << I(2), I(-3) >> }
@@ -266,6 +303,7 @@ Pool(kd, nn, pos) ==
       [] kd = "sym"    -> SymPool(nn)
       [] kd = "homog"  -> HomogPool(nn)
       [] kd = "symeq"  -> SymEqPool(nn)
+      [] kd = "hist"   -> IF pos = 1 THEN HistPoolA(nn) ELSE IF pos = 2 THEN HistPoolB(nn) ELSE HistSeqs
       [] kd = "eq"     -> IF pos <= 2 THEN RecipePool(nn)
                           ELSE IF pos = 3 /\ args[1].via \in {"t", "b"} /\ args[2].via \in {"t", "b"}
                                THEN {0, 1} ELSE {0}
@@ -315,6 +353,8 @@ Case ==
       [] kind = "homog"  -> [k |-> "unary", n |-> n, g |-> g, a |-> args[1]]
       [] kind = "symeq"  -> [k |-> kind, n |-> n, g |-> g, ra |-> args[1], rb |-> args[2],
                              pts |-> SymPts]
+      [] kind = "hist"   -> [k |-> kind, n |-> n, g |-> g, a |-> args[1], b |-> args[2],
+                             q |-> HistQ, steps |-> args[3]]
 Emit == Complete => PrintT(ToJson(Case))
 
 (************************ the property on the model ************************)
@@ -402,6 +442,40 @@ SymEqModel ==
                       LET p == << QOf(SymPts[j][1]), QOf(SymPts[j][2]) >>
                       IN  EvalTMV(ta, p) = EvalTMV(tb, p)
 
+(* S-layer for histories: the state is the pair of STORED dicts of the two   *)
+(* live objects; a step is a transition of that state (C18_Bitmap.ImplAddD   *)
+(* for everything that goes through __add__; products, unary operations and  *)
+(* comparisons build new dicts from reads only).  The property on the model: *)
+(* no step changes the stored data of an operand, hence after any history    *)
+(* what ==, bool, get_pure_grade and inv() see of the used object is what    *)
+(* they see of a never used twin, which is the coefficient-wise meaning.     *)
+HistStep(st, s) ==
+    LET qd == DictOf(MVScalar(QOf(HistQ))) IN
+    CASE s = "add"  -> LET r == ImplAddD(st.a, st.b) IN [a |-> r.self, b |-> r.other]
+      [] s = "radd" -> LET r == ImplAddD(st.b, st.a) IN [a |-> r.other, b |-> r.self]
+      \* a - b is a + (-b): -b is a new object
+      [] s = "sub"  -> [a |-> ImplAddD(st.a, ImplNegD(st.b)).self, b |-> st.b]
+      [] s = "rsub" -> [a |-> st.a, b |-> ImplAddD(st.b, ImplNegD(st.a)).self]
+      \* q + a is a.__radd__(q) = a.__add__(q), the scalar is cast to a new object;
+      \* q - a is q + (-a)
+      [] s \in {"sadd", "adds"} -> [a |-> ImplAddD(st.a, qd).self, b |-> st.b]
+      [] OTHER -> st
+RECURSIVE HistRun(_, _, _)
+HistRun(st, steps, i) == IF i > Len(steps) THEN st ELSE HistRun(HistStep(st, steps[i]), steps, i + 1)
+HistModel ==
+    LET A  == MVOfTerms(args[1], g)
+        B  == MVOfTerms(args[2], g)
+        s0 == [a |-> DictOf(A), b |-> DictOf(B)]
+        sN == HistRun(s0, args[3], 1)
+        \* d: stored dict of the used object, M: its meaning = the never used twin
+        Obs(d, M) ==
+            /\ d = DictOf(M)
+            /\ ImplEqD(d, DictOf(M)) /\ ImplEqD(DictOf(M), d)
+            /\ ImplBoolD(d) = (M # MVZero)
+            /\ ImplPureGradeD(d) = PureGrade(M)
+            /\ ImplInvD(d, n, g) = ImplInv(M, n, g)
+    IN  MVBad(A) \/ MVBad(B) \/ (Obs(sN.a, A) /\ Obs(sN.b, B))
+
 BilinModel ==
     LET A == MVOfTerms(args[1], g)
         B == MVOfTerms(args[2], g)
@@ -427,5 +501,6 @@ ModelHolds ==
         [] kind = "homog"  -> UnaryModel
         [] kind = "symeq"  -> SymEqModel
         [] kind = "bilin"  -> BilinModel
+        [] kind = "hist"   -> HistModel
         [] OTHER -> TRUE
 =============================================================================
